@@ -9,6 +9,9 @@ package config
 import (
 	"fmt"
 	"math"
+	"os"
+	"path/filepath"
+	"strings"
 	"testing"
 	"time"
 
@@ -93,6 +96,84 @@ func TestVerifC15Fix(t *testing.T) {
 			return int64(r.U64() % uint64(700*sec))
 		}
 	}
+	// ---- the WHOLE configuration through InitSyncerConfig (yaml -> (*SyncConfig).fix):
+	// whenever a cluster section survives (runCluster is reachable) it must
+	// have gone through ClusterConfig.fix.
+	dir := t.TempDir()
+	whole := func(group string, etcd bool, leaseSet, renewSet bool, lease, renew int64, src string) {
+		var sb strings.Builder
+		sb.WriteString("server:\n  listen: 10.0.0.1:18001\n")
+		sb.WriteString("input:\n  redis:\n    addresses: [127.0.0.1:1]\n")
+		sb.WriteString("output:\n  redis:\n    addresses: [127.0.0.1:2]\n")
+		sb.WriteString("channel:\n  type: memory\nlog:\n  level: error\n")
+		sb.WriteString("cluster:\n")
+		if group != "" {
+			fmt.Fprintf(&sb, "  groupName: %s\n", group)
+		}
+		if leaseSet {
+			fmt.Fprintf(&sb, "  leaseTimeout: %dns\n", lease)
+		} else {
+			lease = 0
+		}
+		if renewSet {
+			fmt.Fprintf(&sb, "  leaseRenewInterval: %dns\n", renew)
+		} else {
+			renew = 0
+		}
+		if etcd {
+			sb.WriteString("  metaEtcd:\n    endpoints: [127.0.0.1:2379]\n")
+		}
+		path := filepath.Join(dir, "c.yaml")
+		if err := os.WriteFile(path, []byte(sb.String()), 0o644); err != nil {
+			t.Fatal(err)
+		}
+		*syncCfg = SyncConfig{}
+		err := InitSyncerConfig(path)
+		replay := map[string]interface{}{"yaml": sb.String()}
+		g := 0
+		if group != "" {
+			g = 1
+		}
+		out := "error"
+		switch {
+		case err != nil:
+			s.Violate("config-refused", "InitSyncerConfig: "+err.Error(), replay)
+		case syncCfg.Cluster == nil:
+			out = "nocluster"
+			s.Count("whole_nocluster")
+		default:
+			cc := syncCfg.Cluster
+			ttl := int(cc.LeaseTimeout / time.Second) // cmd/syncer.go
+			out = fmt.Sprintf("%d %d %d", int64(cc.LeaseTimeout), int64(cc.LeaseRenewInterval), ttl)
+			s.Count("whole_cluster")
+			if cc.LeaseTimeout < 3*time.Second || cc.LeaseTimeout > 600*time.Second || cc.LeaseRenewInterval < time.Second ||
+				3*cc.LeaseRenewInterval > cc.LeaseTimeout || ttl < 3 {
+				s.Violate("cluster-section-not-fixed", fmt.Sprintf("cluster mode reachable with lease=%v renew=%v ttl=%d", cc.LeaseTimeout, cc.LeaseRenewInterval, ttl), replay)
+			}
+			if etcd && (cc.MetaEtcd == nil || cc.MetaEtcd.Ttl != ttl) {
+				s.Violate("etcd-ttl-differs", fmt.Sprintf("etcd ttl %v, lease ttl %d", cc.MetaEtcd, ttl), replay)
+			}
+		}
+		s.Op(fmt.Sprintf("cfgfix %d %d %d %d", idx, g, lease, renew), fmt.Sprintf("#%d %s", idx, out))
+		idx++
+		s.Count("src_" + src)
+	}
+	small := []int64{-sec, 0, 1, sec - 1, sec, 2 * sec, 3*sec - 1, 3 * sec, 9 * sec, 10 * sec, 200 * sec, 600 * sec, 601 * sec}
+	for _, group := range []string{"g1", ""} {
+		for _, etcd := range []bool{false, true} {
+			for _, l := range small {
+				for _, rv := range small {
+					whole(group, etcd, true, true, l, rv, "whole_marks")
+				}
+			}
+			for _, ls := range []bool{false, true} {
+				for _, rs := range []bool{false, true} {
+					whole(group, etcd, ls, rs, 9*sec, 2*sec, "whole_optional")
+				}
+			}
+		}
+	}
+
 	for i := 0; i < vfutil.Scale(20000, 1000000); i++ {
 		l := pick()
 		rv := pick()
